@@ -11,6 +11,9 @@ CLAIMED = {
  "C02": dict(cat="proof", ref="5 C02", tech=TECH,
    text="every enqueue/send/flush of WriteConnection is proved against the history variable stream() = concat(write log) + pending: accepted message => stream grows by exactly enc(value)+NUL, refused => unchanged; flush = one write of everything pending, none when empty",
    note="assumed: to_slice through its contract [U3.to_slice] (proved separately as far as unit json_bytes goes), transport write contract, vstd Vec specs"),
+ "C06": dict(cat="proof", ref="5 C06", tech=TECH,
+   text="Chain::new/append keep call_count/reply_count = number of calls / of non-oneway calls and enqueue each call as one frame; ReplyStream::new starts done iff no reply is owed; the accounting statements of poll_next (extracted fragment) advance the index exactly on a final reply or method error and set done exactly on error or when the owed count is reached; a proved counting lemma shows a conforming reply script is consumed exactly",
+   note="assumed/unverified: Chain::send and the pin-projection / unsafe / ready! plumbing of poll_next around the fragment; enqueue_call via its write_path contract; composition with C01 on paper"),
  "C07": dict(cat="proof", ref="5 C07", tech="contract-based deductive verification (Verus): cancel-point assertions of the representation invariant at every removed .await",
    text="at every .await of the receive path the invariant that the next receive requires, with unchanged delivered count and wire, is asserted and discharged for every loop iteration and for any content of the lent spare buffer tail",
    note="assumed: the transport's read future is itself cancel safe (trait obligation); scheduling abstracted to 'the future may be dropped at any await'"),
@@ -33,7 +36,6 @@ NA = {
  "C16": "derive-macro output and macro-generated const TYPE impls; equality of compile-time constants per program",
  "C20": "semantics of tokio broadcast / async-broadcast channels under task interleavings; Kani has no threads, Verus would need permission types for code we do not own",
  "C03": "not yet built (planned: unit json_bytes)",
- "C06": "not yet built (planned: unit chain)",
  "C13": "not yet built (planned: unit idl_tokens)",
  "C18": "not yet built (planned: unit select_all)",
  "C19": "not yet built (planned: unit transport)",
